@@ -26,7 +26,7 @@ ASSUMPTIONS = [
     "with optimize_rotation the rotamer about the new bond is not prescribed: only rigidity, length and direction are asserted",
     "B's former attachment direction pointing back at A's anchor is asserted because the anchored mechanism is 'rotation v2 -> -v1'",
     "partial charges of the product are not asserted",
-    "scripts/combine.py cannot be imported (openbabel): its loop `join(deriv, sub, ap_i - i, sub.attachment_points[0], optimize_rotation=True)` is restated in the harness",
+    "scripts/combine.py imports openbabel at load time (absent): its loop is restated in the harness for the stepwise oracle AND the real _ml_assemble is imported behind a placeholder `openbabel` module (the assembly loop never uses it) for a differential comparison",
 ]
 LATTICE = [(x, y, z) for x in range(3) for y in range(3) for z in range(3)]
 ELS = [6, 7, 8, 16, 15, 9, 17, 14, 5, 35]
@@ -313,14 +313,34 @@ def strat_join(tier):
 
 
 # ---------------------------------------------------------------- iterated joins (molli combine)
+def _real_assemble():
+    """molli/scripts/combine.py:_ml_assemble itself.  The module imports openbabel at load time (absent here) although
+    the assembly loop never touches it: a placeholder module is installed just for the import."""
+    import sys
+    import types
+
+    if "openbabel" not in sys.modules:
+        ob = types.ModuleType("openbabel")
+        ob.openbabel = types.ModuleType("openbabel.openbabel")
+        ob.pybel = types.ModuleType("openbabel.pybel")
+        sys.modules["openbabel"], sys.modules["openbabel.openbabel"], sys.modules["openbabel.pybel"] = ob, ob.openbabel, ob.pybel
+    from molli.scripts import combine
+
+    fn = combine._ml_assemble
+    return fn
+
+
 def check_iter(r) -> list[Fail]:
     import molli as ml
 
     fails: list[Fail] = []
     core, aps = build_fragment(r["core"], ml.Molecule, "c")
-    subs = [build_fragment(dict(s, aps=s["aps"][:1]), ml.Molecule, f"s{k}_")[0] for k, s in enumerate(r["subs"][: len(aps)])]
-    aps = aps[: len(subs)]
-    core_aps = tuple(sorted(aps))            # indices of the attachment points in the core, ascending
+    # `molli combine -a ...` may select a SUBSET of the core's attachment points
+    sel = [a for k, a in enumerate(sorted(aps)) if (r.get("ap_subset", 255) >> k) & 1] or sorted(aps)
+    subs = [build_fragment(dict(s, aps=s["aps"][:1]), ml.Molecule, f"s{k}_")[0] for k, s in enumerate(r["subs"][: len(sel)])]
+    aps = sel[: len(subs)]
+    core_snapshot = chem.snapshot(core)
+    core_aps = tuple(sorted(aps))            # indices of the selected attachment points in the core, ascending
     ap_labels = [core.atoms[i].label for i in core_aps]
     deriv = ml.Molecule(core)
     for i, (ap_i, sub) in enumerate(zip(core_aps, subs)):
@@ -334,21 +354,50 @@ def check_iter(r) -> list[Fail]:
         if P is None or fails:
             return fails
         deriv = P
-    # the fully substituted product: every core heavy atom, then each substituent's atoms, no attachment point of the used ones left
-    left = [a.label for a in deriv.atoms if a.is_attachment_point]
-    if len(left) != len(r["core"]["aps"]) - len(subs) if len(r["core"]["aps"]) >= len(subs) else False:
-        fails.append(Fail("iterated:attachment-points-left-over", f"{left}"))
+    # the attachment points that were NOT selected are exactly the ones left in the product
+    left = sorted(a.label for a in deriv.atoms if a.is_attachment_point)
+    want_left = sorted(core.atoms[i].label for i in range(core.n_atoms) if core.atoms[i].is_attachment_point and i not in core_aps)
+    if left != want_left:
+        fails.append(Fail("iterated:wrong-attachment-points-left-over", f"left {left}, expected {want_left}"))
+    # ---- differential: the real assembly routine of `molli combine` on the same inputs
+    if not fails:
+        try:
+            fn = _real_assemble()
+            call = fn(core, core_aps, [tuple(subs)], hadd=False, obopt=None)
+            results = call[0](*call[1], **call[2]) if isinstance(call, tuple) else call
+        except Exception as e:
+            from vf.core import exc_sig
+
+            s_ = exc_sig(e)
+            if s_ is None:
+                raise
+            return [Fail(f"combine-assemble-raises:{s_}", repr(e)[:300])]
+        if len(results) != 1:
+            fails.append(Fail("combine:number-of-products", f"{len(results)}"))
+        else:
+            (pname, prod), = results.items()
+            exp_name = "_".join([core.name] + [s_.name for s_ in subs])
+            if pname != exp_name or prod.name != exp_name:
+                fails.append(Fail("combine:product-name", f"{pname!r} / {prod.name!r} vs {exp_name!r}"))
+            d = chem.snap_diff(chem.snapshot(deriv), chem.snapshot(prod), skip=("name",))
+            if d:
+                fails.append(Fail("combine:product-differs-from-iterated-join:" + d.split(":")[0].split("[")[0], f"core APs {core_aps} of {sorted(i for i in range(core.n_atoms) if core.atoms[i].is_attachment_point)}: {d}"))
+        d = chem.snap_diff(core_snapshot, chem.snapshot(core))
+        if d:
+            fails.append(Fail("combine:core-altered", d))
     tally(units=max(0, len(subs) - 1), nontrivial_keys=[])
     return fails
 
 
 def classify_iter(r):
-    n = min(len(r["core"]["aps"]), len(r["subs"]))
-    return n >= 2 and r["core"]["n"] >= 3, [f"n_joins={n}"]
+    naps = len(r["core"]["aps"])
+    nsel = sum(1 for k in range(naps) if (r.get("ap_subset", 255) >> k) & 1) or naps
+    n = min(nsel, len(r["subs"]))
+    return n >= 2 and r["core"]["n"] >= 3, [f"n_joins={n}", "proper_subset_of_attachment_points" if nsel < naps else "all_attachment_points"]
 
 
 def strat_iter(tier):
-    return st.fixed_dictionaries({"core": _frag(10, (2, 4)), "subs": st.lists(_frag(6), min_size=2, max_size=4)})
+    return st.fixed_dictionaries({"core": _frag(10, (2, 4)), "subs": st.lists(_frag(6), min_size=2, max_size=4), "ap_subset": st.sampled_from([255, 255, 3, 5, 6, 9, 10, 12, 7, 14])})
 
 
 LEGS = [
@@ -356,5 +405,5 @@ LEGS = [
         rule="constructed 3-D tree/ring fragments of 1-10 heavy atoms + attachment point, random poses, dist None|0.8-3.0, optimize_rotation on/off, charge/mult/name/bond overrides (charge 0 its own class), "
              "attachment vectors in general position / exactly parallel / exactly antiparallel / along z; non-trivial = both fragments have >=3 heavy atoms"),
     Leg("iter", check_iter, classify_iter, strategy=strat_iter, n={"quick": 300, "thorough": 5000}, shards={"quick": 16, "thorough": 32},
-        rule="cores with 2-4 attachment points joined successively with 2-4 substituents exactly as molli combine does (index ap_i - i, optimize_rotation=True), single-join oracle at every step; non-trivial = >=2 joins on a core of >=3 atoms"),
+        rule="cores with 2-4 attachment points, all or a proper subset of them selected, joined successively with substituents exactly as molli combine does (index ap_i - i, optimize_rotation=True): single-join oracle at every step, and the product of the real molli.scripts.combine._ml_assemble (imported with a placeholder openbabel module) must equal the stepwise product; non-trivial = >=2 joins on a core of >=3 atoms"),
 ]
